@@ -222,6 +222,8 @@ impl super::DebugSession {
             }));
         }
 
+        #[cfg(feature = "verif")]
+        crate::dap::verif::thread_probe(&new_ids.iter().copied().collect::<Vec<i64>>());
         for id in new_ids.difference(&existing_ids) {
             self.enqueue_thread_event("started", *id);
         }
